@@ -136,19 +136,24 @@ class JobArrayer:
         if not self.min_array_size:
             return
 
-        if self._monitor_thread.is_alive():
-            return
+        # Lock, since both the submitting thread and an executor's monitor thread start us.
+        with self._lock:
+            if self._monitor_thread.is_alive():
+                return
 
-        # Initialize a new Thread here in case a previous one has completed,
-        # since Threads can't be started more than once.
-        self._exit_flag.clear()
-        self._monitor_thread = threading.Thread(target=self._monitor_stale_jobs, daemon=True)
-        self._monitor_thread.start()
+            # Initialize a new Thread here in case a previous one has completed,
+            # since Threads can't be started more than once.
+            self._exit_flag.clear()
+            self._monitor_thread = threading.Thread(target=self._monitor_stale_jobs, daemon=True)
+            self._monitor_thread.start()
 
     def stop(self) -> None:
-        self._exit_flag.set()
-        if self._monitor_thread.is_alive():
-            self._monitor_thread.join()
+        # Lock, so that we join the thread we told to exit and not one started since.
+        with self._lock:
+            self._exit_flag.set()
+            monitor_thread = self._monitor_thread
+        if monitor_thread.is_alive():
+            monitor_thread.join()
 
     def add_job(self, job: Job) -> None:
         """Adds a new job"""
